@@ -181,6 +181,16 @@ class Env:
                     res = "ok:[" + ".".join(str(self.idx(o)) for o in rows) + "]"
                 elif kind == "refresh":
                     s.refresh(P[op[1]])
+                elif kind == "gett":  # Session.get with an identity token (not modelled in Lean)
+                    r = s.get(self.Item, op[1], identity_token=op[2])
+                    res = "ok:N" if r is None else "ok:%d" % self.idx(r)
+                elif kind == "queryt":
+                    opts = {"identity_token": op[1]}
+                    if op[2]:
+                        opts["populate_existing"] = True
+                    stmt = self.sa.select(self.Item).order_by(self.Item.id)
+                    rows = s.execute(stmt, execution_options=opts).scalars().all()
+                    res = "ok:[" + ".".join(str(self.idx(o)) for o in rows) + "]"
                 else:
                     raise ValueError(kind)
             except Exception as e:  # noqa: BLE001 - every exception class is an observable
@@ -208,13 +218,16 @@ class Env:
                     "expired": bool(i.expired),
                     "modified": bool(i.modified),
                     "key": None if i.key is None else i.key[1][0],
+                    "token": None if i.key is None else i.key[2],
                     "sid": i.session_id is not None,
                 }
             )
         imap = []
+        imap_t = []
         for k, st in s.identity_map._dict.items():
             o = st.obj()
             imap.append((k[1][0], self.ids.get(id(o), -1)))
+            imap_t.append((k[1][0], k[2], self.ids.get(id(o), -1)))
         depth, nested, t = 0, 0, s._transaction
         while t is not None:
             depth += 1
@@ -227,6 +240,7 @@ class Env:
             "new": sorted(self.ids[id(o)] for o in s._new.values()),
             "deleted": sorted(self.ids[id(o)] for o in s._deleted.values()),
             "imap": sorted(imap),
+            "imap_t": sorted(imap_t, key=repr),
             "events": [(n, self.ids[id(o)]) for n, o in self.evlog],
             "txn": (depth, nested, bool(s.is_active)),
             "db": rows,
